@@ -297,9 +297,9 @@ namespace Pistache::Rest
                 if (route != nullptr)
                     return result;
                 params.pop_back();
-                // try to find a route for lower path assuming that
-                // this optional path param is not present
-                result = optional.second->findRoute(lower_path, params, splats);
+                // try to find a route assuming that this optional path param is not
+                // present: the segment is still to be matched, by what follows the optional
+                result = optional.second->findRoute(path, params, splats);
 
                 route = std::get<0>(result);
                 if (route != nullptr)
